@@ -670,11 +670,6 @@ def gen_opts(rnd: random.Random) -> T.Dict[str, T.Any]:
     return o
 
 
-def lib_ambiguous(o: T.Dict[str, T.Any], d: T.Dict[str, T.Any], tag: str) -> bool:
-    """Untagged things below libdir: the tag depends on the suffix only for .a/.pc/.so/.dll - keep those, nothing to avoid."""
-    return False
-
-
 def gen_project(seed: int, k: int, hist_len: int) -> T.Dict[str, T.Any]:
     rnd = random.Random(seed * 1000003 + k * 104729 + 2)
     # names that end in a blank or contain a newline, and install_headers(install_dir + preserve_path), are known not
@@ -813,7 +808,24 @@ def probe_cases() -> T.List[T.Dict[str, T.Any]]:
                item('n2', 'data', '', rel('share', 'x'), ['other.dat'], ext='.dat', st=[ent([], 'file', 0o644, 'n2:f')])]
     hdr = [item('h1', 'header', '', rel('cust'), ['proj', 'kola.h'], pp=True, ext='.h', st=[ent([], 'file', 0o644, 'h1:f')]),
            item('h2', 'header', '', dict(NONE_DIR), ['proj', 'common.h'], pp=True, ext='.h', st=[ent([], 'file', 0o644, 'h2:f')])]
+    allk = [item('k1', 'data', '', absd('etc', 'probe'), ['conf.dat'], mode=0o640, tag='t1', ext='.dat', st=[ent([], 'file', 0o644, 'k1:f')]),
+            item('k2', 'header', 'sp1', dict(NONE_DIR), ['api.h'], hsub=['probe'], ext='.h', st=[ent([], 'file', 0o644, 'k2:f')]),
+            item('k3', 'man', '', dict(NONE_DIR), ['tool.fr.1'], stem='tool', locale='fr', sect='1', ext='.1', st=[ent([], 'file', 0o644, 'k3:f')]),
+            item('k4', 'subdir', '', rel('share'), ['tree'], exf=[['in', 'skip me']], exd=[['out']], tag='t1',
+                 st=[ent(['run.sh'], 'file', 0o755, 'k4:0'), ent(['in'], 'dir', 0o755, ''), ent(['in', 'keep'], 'file', 0o600, 'k4:1'),
+                     ent(['in', 'skip me'], 'file', 0o644, 'k4:2'), ent(['out'], 'dir', 0o755, ''), ent(['out', 'gone'], 'file', 0o644, 'k4:3')]),
+            item('k5', 'emptydir', '', rel('var', 'probe spool'), [], mode=0o1777),
+            item('k6', 'symlink', '', rel('share', 'tree'), ['link'], to='in/keep', tag='t1'),
+            item('k7', 'target', '', rel('lib', 'probe'), ['gen.bin'], mode=0o755, ext='.bin', st=[ent([], 'file', 0o644, 'k7:f')])]
+    o27 = dict(o, umask=0o027, eumask=0o077)
+    envn = dict(env, backend='ninja', subprojects=['sp1'], destmode='both', dname='stage dir')
+    oc = dict(inst, oc=True)
     return [
+        {'id': 'P-foreign', 'o': o27, 'plan': allk, 'env': envn,
+         'hist': [inst, {'op': 'plant', 'k': 7, 'name': 'zz foreign', 'shadow': False}, {'op': 'uninstall'}]},
+        {'id': 'P-cycle', 'o': o27, 'plan': allk, 'env': dict(envn, destmode='rel', pre='dir700'),
+         'hist': [dict(inst, dry=True), dict(inst, tags=['t1', 'man']), dict(inst, skip=['*']), inst, inst,
+                  {'op': 'touch', 'ids': ['k1', 'k4']}, oc, {'op': 'uninstall'}, dict(inst, dry=True), {'op': 'uninstall'}]},
         {'id': 'P-blank', 'o': o, 'plan': blank, 'env': env, 'hist': [inst, {'op': 'uninstall'}]},
         {'id': 'P-blank-shadow', 'o': o, 'plan': blank[:1], 'env': env,
          'hist': [inst, {'op': 'plant', 'k': 0, 'name': 'zz', 'shadow': True}, {'op': 'uninstall'}]},
@@ -942,11 +954,11 @@ def account(chk: Check, traces: T.List[T.Dict[str, T.Any]], cases: T.Dict[str, T
         if created and varied:
             c = cases[t['id']]
             chk.nontriv(hashlib.sha1(json.dumps([c['plan'], c['o'], c['hist']], sort_keys=True).encode()).hexdigest())
-        if len(chk.samples) < 4:
+        if t is traces[0] or t is traces[-1]:
             chk.sample({'id': t['id'], 'ops': ops, 'build_files': t.get('_build_files'),
                         'commands': [' '.join(c['cmd'][2:]) for c in t.get('_cmds', [])][:8],
                         'tree_after_first_step': [('/'.join(e['p']), e['t'], oct(e['m']), e['l'], e['c']) for e in (t['ev'][0]['tree'] if t['ev'] else [])][:25],
-                        'log_after_first_step': [('/'.join(e['p'])) for e in (t['ev'][0]['log'] if t['ev'] else [])][:25]}, limit=4)
+                        'log_after_first_step': [('/'.join(e['p'])) for e in (t['ev'][0]['log'] if t['ev'] else [])][:25]}, limit=6)
 
 
 def run_batch(chk: Check, ex: ProcessPoolExecutor, cases: T.List[T.Dict[str, T.Any]], label: str, chunk: int = 160) -> None:
@@ -970,8 +982,10 @@ def run_batch(chk: Check, ex: ProcessPoolExecutor, cases: T.List[T.Dict[str, T.A
 def main(chk: Check) -> None:
     quick = chk.tier == 'quick'
     mc_runs = [(2, 'small', 'two')] if quick else [(2, 'full', 'four'), (3, 'small', 'two')]
-    n_a = 36 if quick else 520
-    n_b = 36 if quick else 620
+    n_a = 36 if quick else 360
+    n_b = 36 if quick else 420
+    scale = float(os.environ.get('VERIF_C11_SCALE', '1'))     # development knob: fewer/more histories, same everything else
+    n_a, n_b = max(4, int(n_a * scale)), max(4, int(n_b * scale))
     len_a = 5 if quick else 6
     len_b = 6 if quick else 8
     chk.rule = ('A: plans (conflict-free subsets of the rule catalog), option sets and install argument sets exported by the TLC '
